@@ -146,6 +146,19 @@ class CmsDriver:
         else:
             st_ = "exc"
         st2, _ = ctx.lib(self.noexc, o.join, o, allow=(NotSupportedError,))
+        # a call that fails on invalid input (hash list longer than the sketch is deep; an amount that is no number) did not
+        # return an estimate, so neither the counters nor the table may have changed
+        k0 = self.pool[self.nops % len(self.pool)]
+        too_long = o.hashes(k0, self.d + 2)
+        for fn, args in ((o.add_alt, (k0, too_long, 1)), (o.add_alt, (k0, o.hashes(k0), None))) + \
+                (((o.remove_alt, (k0, too_long, 1)), (o.remove_alt, (k0, o.hashes(k0), None))) if self.cls == "st" else ()):
+            try:
+                fn(*args)
+                bad = True
+            except Exception:  # noqa - which exception is raised is not specified
+                bad = False
+            if bad:
+                ctx.feat("invalid_call_accepted")
         after = (bytes(o), o.elements_added, dict(o.heavy_hitters) if self.cls == "hh" else dict(o.meets_threshold))
         name = self._o("hh") if self.cls == "hh" else self._o("st")
         if name:
